@@ -55,6 +55,13 @@ def special():
                     t = top + (" | group this (take 1)" if dist else "")
                     src = (X if declared else "") + f"{t} | {op} ({bot})" + (" | sort k | take 2" if n % 2 else "")
                     out.append((f"so{n}", src, xs if declared else None)); n += 1
+    # whole-row de-duplication directly after a set operation (UNION [DISTINCT] ...)
+    n = 0
+    for top, bot in shapes[:4]:
+        for op in ("append", "remove", "intersect"):
+            for declared in (True, False):
+                src = (X if declared else "") + f"{top} | {op} ({bot}) | group this (take 1)" + (" | sort k" if n % 2 else "")
+                out.append((f"sd{n}", src, xs if declared else None)); n += 1
     more = [
         "from x | select {a = a ?? 0} | loop (filter a < 3 | select {a = a + 1})",
         "from x | select {k, a} | loop (filter a < 3 | select {k, a = a + 1}) | sort k",
